@@ -209,7 +209,12 @@ CLAIMS = {
              "_remove_control_events() running on every path, which is checked; device state stored into a player is a "
              "fresh object (LogicBlockState() created only when the player has none) and never an alias of a mutable "
              "config container; a new game starts with no players and each Player owns a new variable dict. Value equality "
-             "across turns for arbitrary devices is not decided. Bindings inherited through super() chains are included.",
+             "across turns for arbitrary devices is not decided. Bindings inherited through super() chains are included. Also: "
+             "coroutines that write to the current player after an await fence ball_ending until their queue is empty; "
+             "VariablePlayer.clear_context examines every block entry; which player is addressed: variable_player "
+             "writes (var, value) through add/set_with_kwargs to the current player or to player_list[N - 1] for a "
+             "configured number N, machine variables only for *_machine actions, and both access paths of the player "
+             "placeholder index player_list[N] after an existence check or read the current player.",
         technique="who-may-write; CFG must-pass through super() chains; def-use discovery of player-bound attributes; freshness of stored values",
         ref="4/C11"),
     "C15": dict(
